@@ -917,3 +917,46 @@ def false_cycle_reports(idx, A, err="RecursiveModelStructure"):
             if same_down and not removes and not dels:
                 out.append((f, iff.lineno, "%s raises the recursive-model error when `%s` is already in `%s`, a collection it only ever adds to and hands down unchanged: it holds every command visited so far, not the chain being followed, so a result reached along two chains (X feeds Y and Z, Z also reads Y) is reported as a loop and a valid model is refused" % (f.qualname, K.src(t.left), coll)))
     return out
+
+
+
+def complementary_starts(A):
+    """Two top-level loops of Program.run over the command table, `for c in T: if P(c): c.run()` and `for c in T: if not P(c): c.run()`
+    (the same test, once negated - `x in R` / `x not in R`), nothing else in either body, R not rebound in between: together they
+    start every command.  -> (line, text) or None"""
+    import ast as _ast
+    from . import common as _K
+
+    fi = A.program_run
+    body = fi.node.body
+    cands = []
+    for i, st in enumerate(body):
+        if not (isinstance(st, _ast.For) and isinstance(st.target, _ast.Name) and not st.orelse and len(st.body) == 1 and isinstance(st.body[0], _ast.If) and not st.body[0].orelse):
+            continue
+        if not _K.src(st.iter).replace(" ", "").endswith(".values()") and not _K.src(st.iter).replace(" ", "").endswith(".commands"):
+            continue
+        iff = st.body[0]
+        v = st.target.id
+        if not (len(iff.body) == 1 and isinstance(iff.body[0], _ast.Expr) and isinstance(iff.body[0].value, _ast.Call) and _K.src(iff.body[0].value.func) in ("%s.run" % v,)):
+            continue
+        t = iff.test
+        neg = False
+        while isinstance(t, _ast.UnaryOp) and isinstance(t.op, _ast.Not):
+            neg, t = not neg, t.operand
+        if isinstance(t, _ast.Compare) and len(t.ops) == 1 and isinstance(t.ops[0], (_ast.In, _ast.NotIn)):
+            if isinstance(t.ops[0], _ast.NotIn):
+                neg = not neg
+            core = (_K.src(t.left).replace(v + ".", "_v."), _K.src(t.comparators[0]), _K.src(st.iter))
+            names = {x.id for x in _ast.walk(t.comparators[0]) if isinstance(x, _ast.Name)}
+        else:
+            core = (_K.src(t).replace(v + ".", "_v."), "", _K.src(st.iter))
+            names = {x.id for x in _ast.walk(t) if isinstance(x, _ast.Name)} - {v}
+        cands.append((i, core, neg, names, st))
+    for a in cands:
+        for b in cands:
+            if a[0] < b[0] and a[1] == b[1] and a[2] != b[2]:
+                between = body[a[0] + 1:b[0]]
+                rebound = any(isinstance(x, _ast.Name) and isinstance(x.ctx, _ast.Store) and x.id in a[3] for st in between for x in _ast.walk(st))
+                if not rebound and not any(isinstance(x, (_ast.Return, _ast.Break)) for st in body[a[0]:b[0] + 1] for x in _ast.walk(st)):
+                    return a[4].lineno, "`%s` and its negation, one loop each: every command is started by one of the two" % _K.src(a[4].body[0].test)
+    return None
